@@ -10,6 +10,7 @@ block.tlb (encoder with both `Either` choices free, decoder `decodeMessage`).  C
 import TonVerif.Proofs.Wrappers
 import TonVerif.Proofs.SrcArith2
 import TonVerif.Generated.MsgLayout
+import TonVerif.Proofs.SrcMsg
 
 namespace TonVerif.Properties.C15
 open TonVerif TonVerif.Model TonVerif.Spec.Tlb TonVerif.Proofs.Message TonVerif.Proofs.MsgBits
@@ -703,5 +704,68 @@ example : Generated.msgInitInline 500 3 100 3 0 1 = false ∧ Generated.msgInitI
   decide
 
 end Src
+
+/-! ### the WHOLE deserialize methods (and the leaf serialisers) regenerated from the source (Generated/MsgSrc.lean)
+
+`Generated.MsgSrc.*` are re-translated from tlb/transaction.py, tlb/account.py, tlb/block.py on every run
+(harness/translate/pytlb.py, msgsrc.py). -/
+section SrcWhole
+open TonVerif.Generated.MsgSrc TonVerif.Proofs.SrcMsg
+
+/-- `c15_src_deserialize`: for EVERY slice the regenerated `MessageAny.deserialize`, `CommonMsgInfo.deserialize` (dispatch on
+    `preload_bit` / `preload_bits(2)`), `InternalMsgInfo / ExternalMsgInfo / ExternalOutMsgInfo.deserialize` (tag check, field
+    order and widths), `StateInit.deserialize` (five Maybe bits), `TickTock.deserialize`, `CurrencyCollection.deserialize`,
+    `ExtraCurrencyCollection.deserialize` (dictionary = its optional root) ARE the hand model's parsers, about which
+    `c15_own_parser`, `c15_round_trip`, `c15_state_init_own_parser`, `c15_currency_own_parser` are proved: same raise / return
+    decision, same value, same slice state afterwards. -/
+theorem c15_src_deserialize (ops : CellOps R) :
+    MessageAny_deserialize ops.view = Message.loadMessage ops ∧
+    CommonMsgInfo_deserialize ops.view = (Message.loadInfo : SOp R (Info R)) ∧
+    InternalMsgInfo_deserialize ops.view = (Message.loadInfoInt : SOp R (Info R)) ∧
+    ExternalMsgInfo_deserialize ops.view = (Message.loadInfoExtIn : SOp R (Info R)) ∧
+    ExternalOutMsgInfo_deserialize ops.view = (Message.loadInfoExtOut : SOp R (Info R)) ∧
+    StateInit_deserialize ops.view = (Message.loadStateInit : SOp R (StateInit R)) ∧
+    TickTock_deserialize ops.view = (Message.loadTickTock : SOp R TickTock) ∧
+    CurrencyCollection_deserialize ops.view = (Message.loadCurrency : SOp R (Currency R)) ∧
+    ExtraCurrencyCollection_deserialize ops.view = (SOp.loadMaybeRef : SOp R (Option R)) :=
+  ⟨message_de_eq ops, info_de_eq, infoInt_de_eq, infoExtIn_de_eq, infoExtOut_de_eq, stateInit_de_eq, tickTock_de_eq, currency_de_eq,
+    extra_de_eq⟩
+
+/-- `c15_src_serialize_partial`: the regenerated serialisers that build no intermediate cell object —
+    `ExtraCurrencyCollection.serialize` (`store_dict` of the dictionary root: Maybe bit + reference) and `TickTock.serialize` — are
+    the hand model's builder programs, for all inputs.
+    NOT proved (the full statement): `MessageAny_serialize ops.make m = (Message.serialize ops m).map …`, likewise for StateInit, the
+    three info classes and CurrencyCollection.  These are regenerated, validated against the library and compared with the hand
+    model by evaluation (search hook), but the hand model appends an inline piece without constructing its cell object
+    (`Message.sub`) while the code calls `end_cell()` on it; the equation needs `ops.Total` plus the builder size invariant. -/
+theorem c15_src_serialize_partial (mk : Bits → List R → Option R) :
+    (∀ o : Option R, ExtraCurrencyCollection_serialize mk o = Vm.build mk (BOp.storeMaybeRef o)) ∧
+    (∀ t : TickTock, TickTock_serialize mk t = Vm.build mk (Message.tickTockB t)) :=
+  ⟨extra_ser_eq, tickTock_ser_eq⟩
+
+/-- `c15_src_roundtrip_partial`: the round trip with the REGENERATED parser: under the hypotheses of `c15_round_trip` the hand
+    model's `MessageAny.serialize` returns a cell and the regenerated `MessageAny.deserialize` of that cell's content returns the
+    message.  (Full statement, not proved: the same with the regenerated serialiser, see `c15_src_serialize_partial`.) -/
+theorem c15_src_roundtrip_partial (ops : CellOps R) (hl : ops.Lawful) (ht : ops.Total) (m : Msg R) (hwf : m.info.WF)
+    {ib : Bits} {ir : List R} (hinfo : encInfo m.info = some (ib, ir))
+    (hI : ib.length + (if m.init.isSome then 3 else 2) ≤ 1023)
+    (hinit : ∀ s, m.init = some s → (encStateInit s).isSome)
+    (hbody : m.body.1.length ≤ 1023 ∧ m.body.2.length ≤ 4) :
+    ∃ c, Message.serialize ops m = some c ∧
+      (MessageAny_deserialize ops.view ⟨(ops.view c).1, (ops.view c).2⟩).2 = some m := by
+  obtain ⟨c, hs, hd⟩ := c15_round_trip ops hl ht m hwf hinfo hI hinit hbody
+  refine ⟨c, hs, ?_⟩
+  rw [(c15_src_deserialize ops).1]
+  exact hd
+
+/-- `c15_src_never_overflows_partial`: what the regenerated code contributes to "never overflows": the parser side needs no size
+    hypothesis at all (it is the hand model's parser on every slice); the writer side is `c15_never_overflows` about the hand
+    model, tied to the source by the layout decision lines (`c15_src_layout_tests`) and by sampled correspondence. -/
+theorem c15_src_never_overflows_partial (ops : CellOps R) (c : R) :
+    (MessageAny_deserialize ops.view ⟨(ops.view c).1, (ops.view c).2⟩).2 = Message.deserialize ops c := by
+  rw [(c15_src_deserialize ops).1]
+  rfl
+
+end SrcWhole
 
 end TonVerif.Properties.C15
